@@ -478,6 +478,8 @@ func execNsec3(f []string) vlib.Res {
 		return vlib.Res{Impl: "ring=" + itoa(len(z3.ring()))}
 	case "auth":
 		return execAuthNsec3(f)
+	case "authu":
+		return execAuthUnsigned(f, true)
 	case "ring":
 		// the genuine ring of the current zone (for building witnesses by hand); oracle-side only
 		return vlib.Res{Impl: recs3Str(curZ3.ring())}
@@ -705,11 +707,18 @@ func signable3(set []rec3) bool {
 	return true
 }
 
+func dsVariant(r *vlib.R) string {
+	if r.Chance(3, 4) {
+		return "good"
+	}
+	return vlib.Pick(r, []string{"nosig", "badsig", "none"})
+}
+
 func authVariant(r *vlib.R) string {
 	if r.Chance(2, 3) {
 		return "good"
 	}
-	return vlib.Pick(r, []string{"cd", "nosig", "nodsig", "badsig", "insec", "insecnosig"})
+	return vlib.Pick(r, []string{"cd", "nosig", "nodsig", "badsig", "insec", "insecnosig", "extrasig", "extrasig"})
 }
 
 func genNsec3Case(r *vlib.R, emit func(string)) int {
@@ -808,6 +817,8 @@ func genNsec3Case(r *vlib.R, emit func(string)) int {
 				first = false
 			}
 			for _, q := range []name{nd.n.child("kid"), nd.n.child("kid").child("x")} {
+				emit(fmt.Sprintf("h authu %s %s %d %s %s %s", z.apex, q, vlib.Pick(r, []int{1, 43}), vlib.Pick(r, []string{"nx", "nd"}), dsVariant(r), hashTable(q, z.apex)))
+				cnt++
 				emit(fmt.Sprintf("h dlg %s %s %s", z.apex, q, hashTable(q, z.apex)))
 				emit(fmt.Sprintf("h nod %s %s 43 1 %s", z.apex, q, hashTable(q, z.apex)))
 				emit(fmt.Sprintf("h nxd %s %s 1 1 %s", z.apex, q, hashTable(q, z.apex)))
@@ -982,6 +993,11 @@ func genNsec3Case(r *vlib.R, emit func(string)) int {
 			emit(fmt.Sprintf("h nod %s %s %d %d %s", sg, q, t, c, hashTable(q, sg)))
 			emit(fmt.Sprintf("h agg %s %s %d %d %s", sg, q, t, c, hashTable(q, sg)))
 			cnt += 3
+			if signable3(set) && r.Chance(1, 4) {
+				// no signature at all: only a proven insecure delegation above the name excuses it
+				emit(fmt.Sprintf("h authu %s %s %d %s %s %s", sg, q, t, vlib.Pick(r, []string{"nx", "nd"}), dsVariant(r), hashTable(q, sg)))
+				cnt++
+			}
 			if signable3(set) && r.Chance(1, 2) {
 				// the same records and question through the real Resolver.authority
 				emit(fmt.Sprintf("h auth %s %s %d %s %s %s", sg, q, t, vlib.Pick(r, []string{"nx", "nd"}), authVariant(r), hashTable(q, sg)))
